@@ -77,7 +77,7 @@ impl Vector {
             return false;
         }
         for i in 0..self.len() {
-            if rel_diff(self[i], other[i]) > tol {
+            if self[i] * other[i] < 0. || rel_diff(self[i], other[i]) > tol {
                 return false;
             }
         }
